@@ -60,15 +60,17 @@ LoadFails(e) ==
         \cup F(e.retnull = 0 => e.errany = e.seterr + BadCount(old) + Cardinality({i \in 1..nnew : e.new[i].err = 1}), "C16.errany")
         ELSE {})
 
+\* indexes beyond 32 bits travel as hi * 2^32 + index (TLC integers are 32-bit): any hi > 0 is out of range
+OutOfRange(e, items) == (Has(e, "hi") /\ e.hi > 0) \/ e.index >= Len(items)
 RingFails(e) ==
   LET items == OldItems(e.ring) IN
   IF ~On("C16") THEN {}
-  ELSE CASE e.e = "ItemGet" -> F(e.id = (IF e.index < Len(items) THEN items[e.index + 1].id ELSE -1), "C16.get")
+  ELSE CASE e.e = "ItemGet" -> F(e.id = (IF ~OutOfRange(e, items) THEN items[e.index + 1].id ELSE -1), "C16.get")
          [] e.e = "Count" -> F(e.ret = Len(items), "C16.count")
          [] e.e = "Find" -> F(e.id = FindByKid(items, e.kid), "C16.find")
          [] e.e = "ItemFree" ->
-              F(e.ret = (IF e.index < Len(items) THEN 1 ELSE 0), "C16.free.ret")
-              \cup F(e.ids = Ids(IF e.index < Len(items) THEN SeqRemoveAt(items, e.index + 1) ELSE items), "C16.free.list")
+              F(e.ret = (IF ~OutOfRange(e, items) THEN 1 ELSE 0), "C16.free.ret")
+              \cup F(e.ids = Ids(IF ~OutOfRange(e, items) THEN SeqRemoveAt(items, e.index + 1) ELSE items), "C16.free.list")
               \cup F(e.count = Len(e.ids), "C16.free.count")
          [] e.e = "FreeBad" ->
               F(e.ret = BadCount(items), "C16.freebad.ret")
@@ -259,14 +261,15 @@ CodecFails(e) ==
 
 \* batched codec calls: the inputs are regenerated from the descriptor
 Pow(b, n) == b ^ n
+Suffix(e) == IF Has(e, "suffix") THEN e.suffix ELSE <<>>
 BatchIn(e, i) ==
-  LET rem == e.len - Len(e.prefix)
+  LET rem == e.len - Len(e.prefix) - Len(Suffix(e))
       base == IF e.dir = "enc" THEN 256 ELSE Len(e.alpha)
       digit(k) == ((i - 1) \div Pow(base, rem - k)) % base
-  IN e.prefix \o [k \in 1..rem |-> IF e.dir = "enc" THEN digit(k) ELSE e.alpha[digit(k) + 1]]
+  IN e.prefix \o [k \in 1..rem |-> IF e.dir = "enc" THEN digit(k) ELSE e.alpha[digit(k) + 1]] \o Suffix(e)
 CodecBatchFails(e) ==
   IF ~On("C11") THEN {}
-  ELSE LET rem == e.len - Len(e.prefix)
+  ELSE LET rem == e.len - Len(e.prefix) - Len(Suffix(e))
            n == Pow(IF e.dir = "enc" THEN 256 ELSE Len(e.alpha), rem)
        IN F(Len(e.outs) = n /\ Len(e.rets) = n /\ Len(e.nulls) = n, "C11.batch.count")
           \cup (IF Len(e.outs) # n \/ Len(e.rets) # n \/ Len(e.nulls) # n THEN {}
@@ -357,7 +360,7 @@ Apply(e) ==
     [] e.e = "Ops" -> ops' = e.cur /\ UNCHANGED <<now, rings, builders, checkers, toks, nextId>>
     [] e.e = "OpsT" -> ops' = e.cur /\ UNCHANGED <<now, rings, builders, checkers, toks, nextId>>
     [] e.e = "Load" -> IF e.retnull = 0 THEN Load(e.ring, NewItemsOf(e), e.seterr) ELSE UNCHANGED vars
-    [] e.e = "ItemFree" -> ItemFree(e.ring, e.index, e.ret)
+    [] e.e = "ItemFree" -> ItemFree(e.ring, IF Has(e, "hi") /\ e.hi > 0 THEN 1000000 ELSE e.index, e.ret)
     [] e.e = "FreeBad" -> FreeBad(e.ring)
     [] e.e = "FreeAll" -> FreeAll(e.ring)
     [] e.e = "RingErrClear" -> RingErrClear(e.ring)
